@@ -50,14 +50,49 @@ def PShadowProbe(sh):
     return p
 
 
+EXTRA_TYPES = [
+    ["cont", [["uint", 8], ["bytelist", 96]]], ["list", ["bytelist", 40], 4], ["cont", [["bytevec", 48], ["bitlist", 600]]],
+    ["vec", ["bytelist", 65], 2], ["cont", [["list", ["uint", 8], 64], ["bytelist", 33], ["bitvec", 300]]],
+    ["list", ["cont", [["bytelist", 70], ["uint", 1]]], 3], ["union", False, [["bytelist", 64], ["uint", 1]]],
+]
+
+
+def existing_positions(node, max_depth=9):
+    """generalized indices of the nodes that really exist in a backing (breadth first)"""
+    out, frontier = [], [(1, node)]
+    for _ in range(max_depth):
+        nxt = []
+        for g, n in frontier:
+            if not n.is_leaf():
+                nxt += [(2 * g, n.get_left()), (2 * g + 1, n.get_right())]
+        out += [g for g, _ in nxt]
+        frontier = nxt[:64]
+    return out
+
+
 def gen_inputs(ctx):
     rng = ctx.rng
-    n = 900 if ctx.thorough else 200
+    n = 900 if ctx.thorough else 220
+    types = MUTABLE_TOP + EXTRA_TYPES * 2
     for i in range(n):
-        t = MUTABLE_TOP[i % len(MUTABLE_TOP)]
-        inp = gen_history(rng, t, rng.randrange(2, 14), p_child=0.25)
-        depth = rng.choice([1, 2, 3, 4, 5])
-        inp["gs"] = [rng.randrange(2, 2 << depth) for _ in range(rng.randrange(1, 5))]
+        t = types[i % len(types)]
+        inp = gen_history(rng, t, rng.randrange(2, 14), p_child=0.35)
+        try:
+            pos = existing_positions(to_py(inp["t"], inp["v"]).get_backing())
+        except Exception:
+            pos = []
+        if pos and rng.random() < 0.8:
+            inp["gs"] = [rng.choice(pos) for _ in range(rng.randrange(1, 4))]
+        else:
+            depth = rng.choice([1, 2, 3, 4, 5])
+            inp["gs"] = [rng.randrange(2, 2 << depth) for _ in range(rng.randrange(1, 5))]
+        # make sure children are read: append reads of every top-level position
+        k = inp["t"][0]
+        ln = len(inp["v"]) if k in ("vec", "list", "cont") else 0
+        for j in range(min(ln, 4)):
+            inp["cmds"].append(["get", 0, j])
+        if k == "union":
+            inp["cmds"].append(["value", 0])
         yield inp
 
 
